@@ -20,6 +20,7 @@ import GLua.Engines.RequireEng
 import GLua.Engines.IoEng
 import GLua.Engines.ApiEng
 import GLua.Engines.TableLibEng
+import GLua.Engines.LineTabEng
 open GLua GLua.Eng
 
 structure DState where
@@ -50,6 +51,7 @@ def stepLine (s : DState) (line : String) : DState × String :=
   | "C12" :: r => let (t, v) := LimitsEng.handle s.lim r; ({ s with lim := t }, v.show)
   | "C16" :: r => (s, (C16Eng.handle r).show)
   | "C17M" :: r => (s, (ScopeEng.handle r).show)
+  | "C17L" :: r => (s, (LineTabEng.handle r).show)
   | "L" :: r => (s, (LexEng.handle r).show)
   | "LR" :: r => (s, LexRenderEng.handle r)
   | "C11M" :: r => (s, (CancelEng.handle r).show)
